@@ -63,9 +63,11 @@ inline Future<Executor::ResultType<C&&, Args&&...>, F> Executor::execute(
   using InnerArgsTuple = typename CallableArgs<C>::type;
   Promise<R, F> promise;
   auto future = promise.get_future();
-  submit(await_apply_and_set_value<InnerArgsTuple>(
-      ::std::move(promise), ::std::forward<C>(callable),
-      ::std::forward_as_tuple(::std::forward<Args>(args)...)));
+  submit_with_future(
+      await_apply_and_set_value<InnerArgsTuple>(
+          ::std::move(promise), ::std::forward<C>(callable),
+          ::std::forward_as_tuple(::std::forward<Args>(args)...)),
+      future);
   return future;
 }
 
@@ -76,8 +78,9 @@ inline Future<Executor::AwaitResultType<A&&>, F> Executor::execute(
   using R = AwaitResultType<A&&>;
   Promise<R, F> promise;
   auto future = promise.get_future();
-  submit(
-      await_and_set_value(::std::move(promise), ::std::forward<A>(awaitable)));
+  submit_with_future(
+      await_and_set_value(::std::move(promise), ::std::forward<A>(awaitable)),
+      future);
   return future;
 }
 #endif // __cpp_concepts && __cpp_lib_coroutine
@@ -150,6 +153,22 @@ inline int Executor::submit(CoroutineTask<T>&& task) noexcept {
     handle.resume();
   });
   if (ABSL_PREDICT_FALSE(ret != 0)) {
+    handle.destroy();
+  }
+  return ret;
+}
+
+template <typename T, typename FT>
+inline int Executor::submit_with_future(CoroutineTask<T>&& task,
+                                        FT& future) noexcept {
+  task.set_executor(*this);
+  auto handle = task.release();
+  auto ret = invoke([handle] {
+    handle.resume();
+  });
+  if (ABSL_PREDICT_FALSE(ret != 0)) {
+    // A promise must not be dropped unset while a future still refers to it
+    future = FT {};
     handle.destroy();
   }
   return ret;
